@@ -29,6 +29,13 @@ def main():
     if tier not in ("quick", "thorough"):
         tier = a.tier
     seed = int(os.environ.get("VERIF_SEED", "0") or 0)
+    # every temporary file of this run (run folders, stores, pools of the implementation drivers and of their worker
+    # processes) lives under one private directory which is removed when the check ends
+    import shutil
+    import tempfile
+    scratch = tempfile.mkdtemp(prefix="verif_chk_")
+    os.environ["TMPDIR"] = scratch
+    tempfile.tempdir = scratch
     try:
         mod = importlib.import_module(f"harness.props.{a.prop.lower()}")
         return common.check(mod, tier=tier, seed=seed, replay=a.replay)
@@ -39,6 +46,10 @@ def main():
         traceback.print_exc()
         print(f"[{a.prop}] INFRASTRUCTURE ERROR (not a verdict): harness crashed", file=sys.stderr)
         return 2
+    finally:
+        tempfile.tempdir = None
+        os.environ.pop("TMPDIR", None)
+        shutil.rmtree(scratch, ignore_errors=True)
 
 
 if __name__ == "__main__":
